@@ -418,6 +418,20 @@ func ruleOU12(c *Ctx) {
 			usesStruct = true
 		}
 	}
+	// the URL is a function of (repoDir, path) alone: nothing in the derivation asks the file system or the process
+	// (EvalSymlinks, Abs, Stat, Getwd): file_url is "the URL of the recorded path's absolute spelling", not of whatever
+	// that path resolves to at the moment somebody looks
+	impure := ""
+	for _, g := range append([]*ssa.Function{df}, c.unitOf(df)...) {
+		for _, call := range callsIn(g) {
+			n := calleeFullName(call.Common())
+			if strings.HasPrefix(n, "os.") || strings.HasPrefix(n, "(*os.") || n == "path/filepath.EvalSymlinks" || n == "path/filepath.Abs" || n == "path/filepath.Glob" || n == "path/filepath.Walk" || n == "path/filepath.WalkDir" || strings.HasPrefix(n, "syscall.") {
+				impure = n + " at " + c.Pos(call.Pos())
+			}
+		}
+	}
+	c.check(impure == "", c.Name(df), "pure-derivation", c.FnPos(df), "the file URL is computed from the project directory and the recorded path alone",
+		"the file URL derivation consults the file system or the process ("+impure+"): file_url is no longer the URL of the recorded path under the project root - a symlinked project directory, a symlinked result or a link retargeted later gives a URL outside the root, or one that changes between two reads of the same log")
 	c.check(usesStruct, c.Name(df), "url-from-struct", c.FnPos(df), "the URL text is (*url.URL).String() of a value carrying the path as data", "the file URL is not produced by url.URL.String(): path characters are not escaped as data")
 }
 
